@@ -10,6 +10,7 @@ import (
 	"path/filepath"
 	"strings"
 	"syscall"
+	"time"
 
 	"github.com/glebziz/fs_db/internal/verif/simrt"
 )
@@ -53,10 +54,11 @@ type Root struct {
 
 // Disk is the fault state of the simulated file system (one per world; nil = no limits).
 type Disk struct {
-	Roots []*Root
-	Stats struct {
+	Roots      []*Root
+	FailMkdirs int // this many of the next MkdirAll calls fail (ENOSPC: no inode / no block for the directory)
+	Stats      struct {
 		Creates, Writes, Closes, Removes, Mkdirs, Opens, ReadDirs uint64
-		ENOSPC, PartialWrites, CreateErrs                         uint64
+		ENOSPC, PartialWrites, CreateErrs, MkdirErrs              uint64
 		BytesWritten                                              uint64
 	}
 }
@@ -123,6 +125,11 @@ func MkdirAll(path string, perm FileMode) error {
 	simrt.Mutation("mkdir", path)
 	if disk != nil {
 		disk.Stats.Mkdirs++
+		if disk.FailMkdirs > 0 {
+			disk.FailMkdirs--
+			disk.Stats.MkdirErrs++
+			return &PathError{Op: "mkdir", Path: path, Err: syscall.ENOSPC}
+		}
 	}
 	return os.MkdirAll(path, perm)
 }
@@ -292,3 +299,158 @@ func (f *File) Close() error {
 	}
 	return f.f.Close()
 }
+
+// ---- the rest of package os that file-handling code is likely to use: mutations are decision
+// and crash points and keep the capacity accounting right, everything else is passed through ----
+
+//go:norace
+func fileSize(name string) int64 {
+	if fi, err := os.Lstat(name); err == nil && fi.Mode().IsRegular() {
+		return fi.Size()
+	}
+	return 0
+}
+
+//go:norace
+func Truncate(name string, size int64) error {
+	simrt.Mutation("truncate", name)
+	r := disk.rootOf(name)
+	old := fileSize(name)
+	err := os.Truncate(name, size)
+	if err == nil && r != nil {
+		r.Used += fileSize(name) - old
+	}
+	return err
+}
+
+//go:norace
+func (f *File) Truncate(size int64) error {
+	simrt.Mutation("truncate", f.path)
+	old := fileSize(f.path)
+	err := f.f.Truncate(size)
+	if err == nil && f.root != nil {
+		f.root.Used += fileSize(f.path) - old
+	}
+	return err
+}
+
+//go:norace
+func Rename(oldpath, newpath string) error {
+	simrt.Mutation("rename", oldpath)
+	ro, rn := disk.rootOf(oldpath), disk.rootOf(newpath)
+	size, replaced := fileSize(oldpath), fileSize(newpath)
+	err := os.Rename(oldpath, newpath)
+	if err == nil {
+		if ro != nil {
+			ro.Used -= size
+		}
+		if rn != nil {
+			rn.Used += size - replaced
+		}
+	}
+	return err
+}
+
+//go:norace
+func RemoveAll(path string) error {
+	simrt.Mutation("removeall", path)
+	err := os.RemoveAll(path)
+	if disk != nil {
+		Install(disk) // recount what the roots hold
+	}
+	return err
+}
+
+//go:norace
+func Mkdir(name string, perm FileMode) error {
+	simrt.Mutation("mkdir", name)
+	if disk != nil {
+		disk.Stats.Mkdirs++
+		if disk.FailMkdirs > 0 {
+			disk.FailMkdirs--
+			disk.Stats.MkdirErrs++
+			return &PathError{Op: "mkdir", Path: name, Err: syscall.ENOSPC}
+		}
+	}
+	return os.Mkdir(name, perm)
+}
+
+//go:norace
+func ReadFile(name string) ([]byte, error) {
+	simrt.Yield("os.ReadFile")
+	return os.ReadFile(name)
+}
+
+//go:norace
+func WriteFile(name string, data []byte, perm FileMode) error {
+	f, err := OpenFile(name, O_WRONLY|O_CREATE|O_TRUNC, perm)
+	if err != nil {
+		return err
+	}
+	_, err = f.Write(data)
+	if cerr := f.Close(); err == nil {
+		err = cerr
+	}
+	return err
+}
+
+//go:norace
+func (f *File) WriteAt(p []byte, off int64) (int, error) {
+	simrt.Mutation("write", f.path)
+	old := fileSize(f.path)
+	n, err := f.f.WriteAt(p, off)
+	if f.root != nil {
+		f.root.Used += fileSize(f.path) - old
+	}
+	return n, err
+}
+
+//go:norace
+func (f *File) Chmod(mode FileMode) error { return f.f.Chmod(mode) }
+
+//go:norace
+func (f *File) ReadDir(n int) ([]DirEntry, error) { return f.f.ReadDir(n) }
+
+//go:norace
+func (f *File) Readdirnames(n int) ([]string, error) { return f.f.Readdirnames(n) }
+
+func Chmod(name string, mode FileMode) error        { return os.Chmod(name, mode) }
+func Chtimes(name string, a, m time.Time) error     { return os.Chtimes(name, a, m) }
+func IsNotExist(err error) bool                     { return os.IsNotExist(err) }
+func IsExist(err error) bool                        { return os.IsExist(err) }
+func IsPermission(err error) bool                   { return os.IsPermission(err) }
+func Getenv(key string) string                      { return os.Getenv(key) }
+func LookupEnv(key string) (string, bool)           { return os.LookupEnv(key) }
+func Getpid() int                                   { return os.Getpid() }
+func Getwd() (string, error)                        { return os.Getwd() }
+func TempDir() string                               { return os.TempDir() }
+func MkdirTemp(dir, pattern string) (string, error) { return os.MkdirTemp(dir, pattern) }
+func Hostname() (string, error)                     { return os.Hostname() }
+func Exit(code int)                                 { os.Exit(code) }
+func SameFile(a, b FileInfo) bool                   { return os.SameFile(a, b) }
+func Readlink(name string) (string, error)          { return os.Readlink(name) }
+func Symlink(oldname, newname string) error {
+	simrt.Mutation("symlink", newname)
+	return os.Symlink(oldname, newname)
+}
+func Link(oldname, newname string) error {
+	simrt.Mutation("link", newname)
+	return os.Link(oldname, newname)
+}
+
+var (
+	Stdin  = os.Stdin
+	Stdout = os.Stdout
+	Stderr = os.Stderr
+	Args   = os.Args
+
+	ErrInvalid          = os.ErrInvalid
+	ErrDeadlineExceeded = os.ErrDeadlineExceeded
+	ErrNoDeadline       = os.ErrNoDeadline
+)
+
+type (
+	LinkError    = os.LinkError
+	SyscallError = os.SyscallError
+	Signal       = os.Signal
+)
